@@ -77,12 +77,21 @@ class OMPTaskTrans(ParallelLoopTrans):
         :type node: :py:class:`psyclone.psyir.nodes.Loop`
         :param options: a dictionary with options for transformations.
         :type options: dict of string:values or None
+
+        :raises TransformationError: if the 'collapse' option is set.
+
         '''
         # Disallow CodeBlocks inside the region
         if any(node.walk(CodeBlock)):
             raise GenerationError(
                 "OMPTaskTransformation cannot be applied to a region "
                 "containing a code block")
+
+        # The 'collapse' option of the parent class is not supported. This
+        # must be rejected here, before apply() alters the tree.
+        if options and options.get("collapse", None) is not None:
+            raise TransformationError("Collapse attribute should not be set "
+                                      "for OMPTaskTrans")
 
         super().validate(node, options)
         # Check we can apply all the required transformations on any sub
